@@ -1,4 +1,4 @@
-// Prelude of unit `mclmc` (model R): everything `MclmcChain::{mclmc_kernel, draw}` call but that is not
+// Prelude of unit `mclmc` (model R): everything `MclmcChain::{mclmc_kernel, draw, expanded_draw, extract_stats}` call but that is not
 // extracted here.  Every contract below is an ASSUMPTION of this unit (DESIGN §6) unless stated otherwise.
 //
 // Relation to `_shared/dyn_facade.rs`: the traits Math / Point / Collector, the State façade, the rng event
@@ -32,14 +32,18 @@ pub mod anyhow {
     pub struct Error { pub id: Ghost<int> }
 }
 pub type Result<T, E = anyhow::Error> = core::result::Result<T, E>;
-/// `?` / `.into()` from NutsError to anyhow::Error: some error value (nothing is claimed about it)
-impl FromSpecImpl<NutsError> for anyhow::Error {
+/// marker of the error types that convert into `anyhow::Error` with `?` (std::error::Error + Send + Sync + 'static in
+/// /repo): NutsError and `Math::Err` (the error of `expand_vector`).  Same text as units chain / _shared/dyn_facade.rs
+pub trait ErrorLike {}
+impl ErrorLike for NutsError {}
+/// `?` / `.into()` from an error type to anyhow::Error: some error value (nothing is claimed about it)
+impl<E: ErrorLike> FromSpecImpl<E> for anyhow::Error {
     open spec fn obeys_from_spec() -> bool { false }
-    open spec fn from_spec(v: NutsError) -> Self { arbitrary() }
+    open spec fn from_spec(v: E) -> Self { arbitrary() }
 }
-impl From<NutsError> for anyhow::Error {
+impl<E: ErrorLike> From<E> for anyhow::Error {
     #[verifier::external_body]
-    fn from(e: NutsError) -> (r: anyhow::Error) { unimplemented!() }
+    fn from(e: E) -> (r: anyhow::Error) { unimplemented!() }
 }
 /// R5: `bail!("..")` is rewritten to `return Err(opaque_error())`
 #[verifier::external_body]
@@ -65,6 +69,12 @@ pub mod rand { pub use super::Rng; }
 pub trait Math: Sized {
     type LogpErr: LogpError + VxInto<BoxedErr>;   // `err.into()` boxes the error (Box<dyn Error> in /repo)
     type Vector;
+    // ---- (added for expanded_draw) the trace expansion; SAME TEXT as _shared/dyn_facade.rs (unit chain)
+    type ExpandedVector;
+    type Err: ErrorLike;
+    /// the values stored in the trace for a position (the model's `expand`; may consume randomness)
+    fn expand_vector<R: Rng + ?Sized>(&mut self, rng: &mut R, array: &Self::Vector) -> (r: core::result::Result<Self::ExpandedVector, Self::Err>)
+        ensures final(self).dim_spec() == old(self).dim_spec();
     spec fn dim_spec(&self) -> nat;
     /// content of a vector (A-math: vectors are sequences of reals)
     spec fn vv(v: &Self::Vector) -> Seq<real>;
@@ -91,6 +101,8 @@ pub trait Point<M: Math>: Sized {
     fn initial_energy(&self) -> (r: F) ensures r.r() == self.pview().e0;
     fn energy_error(&self) -> (r: F) ensures r.r() == self.pview().energy - self.pview().e0;
     fn energy(&self) -> (r: F) ensures r.r() == self.pview().energy;
+    /// (added for expanded_draw; shared text) the untransformed position of the point
+    fn position(&self) -> (r: &M::Vector) ensures M::vv(r) == self.pview().x;
 }
 /// view of the EXTRACTED struct TransformedPoint, field by field (energy as in `Point::energy`)
 pub open spec fn tp_view<M: Math>(p: TransformedPoint<M>) -> StateView {
@@ -103,13 +115,15 @@ pub open spec fn tp_view<M: Math>(p: TransformedPoint<M>) -> StateView {
         v: M::vv(&p.velocity), logp: p.logp.r(),
     }
 }
-/// the three accessors below are re-statements of `impl Point<M> for TransformedPoint<M>` in /repo
-/// (transformed_hamiltonian.rs:349-359 and the default `energy_error`), verified against tp_view
+/// the accessors below are re-statements of `impl Point<M> for TransformedPoint<M>` in /repo
+/// (transformed_hamiltonian.rs:328-359 and the default `energy_error`), verified against tp_view
 impl<M: Math> Point<M> for TransformedPoint<M> {
     open spec fn pview(&self) -> StateView { tp_view(*self) }
     fn initial_energy(&self) -> (r: F) { self.initial_energy }
     fn energy_error(&self) -> (r: F) { self.energy() - self.initial_energy() }
     fn energy(&self) -> (r: F) { self.kinetic_energy - (self.logp + self.logdet) }
+    // transformed_hamiltonian.rs:328-330
+    fn position(&self) -> (r: &M::Vector) { &self.untransformed_position }
 }
 
 pub struct StateInUse {}
@@ -145,6 +159,48 @@ impl<M: Math, P: Point<M>> State<M, P> {
 }
 
 // ------------------------------------------------------------------------------------------
+// nuts-storable façade (`#[derive(Storable)]` is dropped by rule R0; the derive macro is NOT verified) -- text of
+// units chain / stats.  The marker impls only make the bounds `type Stats: Storable<StatsDims>` hold.
+// ------------------------------------------------------------------------------------------
+pub trait HasDims {}
+pub trait Storable<P: HasDims + ?Sized> {}
+pub struct StatsDims {}
+impl HasDims for StatsDims {}
+pub mod nuts_storable { pub use super::{HasDims, Storable}; }
+impl Storable<StatsDims> for DivergenceStats {}
+impl Storable<StatsDims> for PointStats {}
+impl<P: HasDims, S: Storable<P>> Storable<P> for HamiltonianStats<P, S> {}
+impl<P: HasDims, H: Storable<P>, A: Storable<P>, Pt: Storable<P>> Storable<P> for MclmcStats<P, H, A, Pt> {}
+
+// ------------------------------------------------------------------------------------------
+// trait SamplerStats of src/sampler_stats.rs:37-42 with the per-impl contract hooks `stats_pre` / `stats_post`
+// (Verus rejects requires/ensures on trait-impl methods).  SAME TEXT as in units chain and stats.
+// ------------------------------------------------------------------------------------------
+pub trait SamplerStats<M: Math> {
+    type Stats: Storable<StatsDims>;
+    type StatsOptions: Copy + Send + Sync;
+    spec fn stats_pre(&self, dim: nat, opt: Self::StatsOptions) -> bool;
+    spec fn stats_post(&self, dim: nat, opt: Self::StatsOptions, r: Self::Stats) -> bool;
+    fn extract_stats(&self, math: &mut M, opt: Self::StatsOptions) -> (r: Self::Stats)
+        requires self.stats_pre(old(math).dim_spec(), opt)
+        ensures final(math).dim_spec() == old(math).dim_spec(), self.stats_post(old(math).dim_spec(), opt, r);
+}
+/// the real values of a slice of floats
+pub open spec fn fvals(s: Seq<F>) -> Seq<real> { Seq::new(s.len(), |i: int| s[i].r()) }
+
+/// FAÇADE of `impl SamplerStats<M> for TransformedPoint<M>` (transformed_hamiltonian.rs:121-157): total, and the
+/// statistics are `point_stats_post` -- the contract PROVED for the real impl in unit stats (impl_extra_pointstats.rs;
+/// `point_stats_post` is copied into lemmas.rs)
+impl<M: Math> SamplerStats<M> for TransformedPoint<M> {
+    type Stats = PointStats;
+    type StatsOptions = TransformedPointStatsOptions;
+    open spec fn stats_pre(&self, dim: nat, opt: Self::StatsOptions) -> bool { true }
+    open spec fn stats_post(&self, dim: nat, opt: Self::StatsOptions, r: Self::Stats) -> bool { point_stats_post(*self, dim, opt, r) }
+    #[verifier::external_body]
+    fn extract_stats(&self, math: &mut M, opt: Self::StatsOptions) -> (r: Self::Stats) { unimplemented!() }
+}
+
+// ------------------------------------------------------------------------------------------
 // Collector façade (shared text): ghost bookkeeping of what the integrator did
 // ------------------------------------------------------------------------------------------
 pub trait Collector<M: Math, P: Point<M>> {
@@ -168,7 +224,13 @@ pub spec const IDX_BIG: int = 0x4000_0000_0000_0000;
 // `step_size` carry the text of the shared `Hamiltonian` trait (to be proved for TransformedHamiltonian in
 // unit `leapfrog`) plus the frame `ham_frame` and the position/velocity refinements marked (+).
 // ------------------------------------------------------------------------------------------
-pub trait Transformation<M: Math>: Sized {}
+/// Transformation, as far as statistics are concerned: a version counter `tid` and the rule `nso_post` that yields
+/// the options for the next extraction.  SAME TEXT as the spec members of unit stats' `Transformation` (where
+/// `nso_post` / `stats_post` are supplied, and proved, for DiagMassMatrix: `r == self.id`, `diag_stats_post`)
+pub trait Transformation<M: Math>: SamplerStats<M> + Sized {
+    spec fn tid(&self) -> int;
+    spec fn nso_post(&self, current: <Self as SamplerStats<M>>::StatsOptions, r: <Self as SamplerStats<M>>::StatsOptions) -> bool;
+}
 #[verifier::external_body]
 #[verifier::reject_recursive_types(M)]
 #[verifier::reject_recursive_types(P)]
@@ -258,6 +320,38 @@ impl<M: Math, T: Transformation<M>> TransformedHamiltonian<M, T> {
 }
 
 // ------------------------------------------------------------------------------------------
+// Hamiltonian, as far as statistics are concerned: SAME TEXT as the trait of that name in unit stats' prelude (the
+// integrator members used by the kernel are the inherent façade methods above).  The two impls below are FAÇADES of
+// `impl SamplerStats<M> for TransformedHamiltonian<M, T>` (transformed_hamiltonian.rs:507-519) and of
+// `TransformedHamiltonian::update_stats_options` (:757-763); their `stats_pre` / `stats_post` / `uso_post` are the
+// texts PROVED for the real code in unit stats (impl_extra_ham.rs, impl_extra_ham_uso.rs).
+// ------------------------------------------------------------------------------------------
+pub trait Hamiltonian<M: Math>: SamplerStats<M> + Sized {
+    type Point: Point<M> + SamplerStats<M>;
+    spec fn uso_post(&self, post: &Self, current: <Self as SamplerStats<M>>::StatsOptions, r: <Self as SamplerStats<M>>::StatsOptions) -> bool;
+    fn update_stats_options(&mut self, math: &mut M, current: <Self as SamplerStats<M>>::StatsOptions) -> (r: <Self as SamplerStats<M>>::StatsOptions)
+        ensures final(math).dim_spec() == old(math).dim_spec(), old(self).uso_post(final(self), current, r);
+}
+impl<M: Math, T: Transformation<M>> SamplerStats<M> for TransformedHamiltonian<M, T> {
+    type Stats = HamiltonianStats<StatsDims, T::Stats>;
+    type StatsOptions = T::StatsOptions;
+    open spec fn stats_pre(&self, dim: nat, opt: Self::StatsOptions) -> bool { self.transformation.stats_pre(dim, opt) }
+    open spec fn stats_post(&self, dim: nat, opt: Self::StatsOptions, r: Self::Stats) -> bool {
+        r.step_size == self.step_size && self.transformation.stats_post(dim, opt, r.transformation)
+    }
+    #[verifier::external_body]
+    fn extract_stats(&self, math: &mut M, opt: Self::StatsOptions) -> (r: Self::Stats) { unimplemented!() }
+}
+impl<M: Math, T: Transformation<M>> Hamiltonian<M> for TransformedHamiltonian<M, T> {
+    type Point = TransformedPoint<M>;
+    open spec fn uso_post(&self, post: &Self, current: <Self as SamplerStats<M>>::StatsOptions, r: <Self as SamplerStats<M>>::StatsOptions) -> bool {
+        self.transformation.nso_post(current, r) && *post == *self
+    }
+    #[verifier::external_body]
+    fn update_stats_options(&mut self, math: &mut M, current: <Self as SamplerStats<M>>::StatsOptions) -> (r: <Self as SamplerStats<M>>::StatsOptions) { unimplemented!() }
+}
+
+// ------------------------------------------------------------------------------------------
 // AdaptStrategy façade.  `adapt` carries exactly the part of unit adapt's contract (gs_adapt_pre /
 // gs_adapt_post, proved there for GlobalStrategy) that the chain driver relies on:
 //   inv            = gs_inv (invariant between calls), draw < 2^64-16
@@ -269,8 +363,8 @@ pub trait HamCfg { spec fn kind_view(&self) -> KineticEnergyKind; }
 impl<M: Math, T: Transformation<M>> HamCfg for TransformedHamiltonian<M, T> {
     open spec fn kind_view(&self) -> KineticEnergyKind { self.kinetic_energy_kind }
 }
-pub trait AdaptStrategy<M: Math>: Sized {
-    type Hamiltonian: HamCfg;
+pub trait AdaptStrategy<M: Math>: SamplerStats<M> + Sized {
+    type Hamiltonian: HamCfg + Hamiltonian<M>;
     type Collector: Collector<M, TransformedPoint<M>>;
     spec fn inv(&self, draw: u64) -> bool;
     spec fn tuning_view(&self) -> bool;
@@ -297,22 +391,24 @@ pub trait AdaptStrategy<M: Math>: Sized {
         ensures final(math).dim_spec() == old(math).dim_spec();
     fn is_tuning(&self) -> (r: bool) ensures r == self.tuning_view();
 }
-/// StatOptions is carried around by the chain and never inspected here
-#[verifier::external_body]
-#[verifier::reject_recursive_types(M)]
-#[verifier::reject_recursive_types(A)]
-pub struct StatOptions<M: Math, A: AdaptStrategy<M>> { _m: PhantomData<M>, _a: PhantomData<A> }
+// (`StatOptions` is EXTRACTED from src/chain.rs, with its Clone / Copy impls)
 
 // ------------------------------------------------------------------------------------------
 // the trait implemented by MclmcChain; the per-impl contract is supplied by impl_extra.rs
 // ------------------------------------------------------------------------------------------
-pub trait Chain<M: Math>: Sized {
+pub trait Chain<M: Math>: SamplerStats<M> + Sized {
     type AdaptStrategy: AdaptStrategy<M>;
     spec fn draw_pre(&self) -> bool;
     spec fn draw_post(&self, post: &Self, r: Result<(Box<[F]>, Progress)>) -> bool;
     fn draw(&mut self) -> (r: Result<(Box<[F]>, Progress)>)
         requires old(self).draw_pre()
         ensures old(self).draw_post(final(self), r);
+    // (same hooks and text as unit chain)
+    spec fn expanded_draw_pre(&self) -> bool;
+    spec fn expanded_draw_post(&self, post: &Self, r: Result<(Box<[F]>, M::ExpandedVector, Self::Stats, Progress)>) -> bool;
+    fn expanded_draw(&mut self) -> (r: Result<(Box<[F]>, M::ExpandedVector, Self::Stats, Progress)>)
+        requires old(self).expanded_draw_pre()
+        ensures old(self).expanded_draw_post(final(self), r);
 }
 
 // ------------------------------------------------------------------------------------------
@@ -359,6 +455,14 @@ impl VxInto<Box<[F]>> for Vec<F> {
     #[verifier::external_body]
     fn vx_into(self) -> (r: Box<[F]>) { unimplemented!() }
 }
+/// `(info, options, draw).into()`: `impl From<(Option<&DivergenceInfo>, DivergenceStatsOptions, u64)> for DivergenceStats`.
+/// PROVED in unit `stats` (div_stats_post; `chain_div_post` is its part that does not look inside DivergenceInfo,
+/// which is opaque here).  SAME TEXT as unit chain.
+impl<'a> VxInto<DivergenceStats> for (Option<&'a DivergenceInfo>, DivergenceStatsOptions, u64) {
+    open spec fn into_post(self, r: DivergenceStats) -> bool { chain_div_post(self.0, self.1, self.2, r) }
+    #[verifier::external_body]
+    fn vx_into(self) -> (r: DivergenceStats) { unimplemented!() }
+}
 /// NutsError -> anyhow::Error: some error value
 impl VxInto<anyhow::Error> for NutsError {
     open spec fn into_post(self, r: anyhow::Error) -> bool { true }
@@ -366,5 +470,5 @@ impl VxInto<anyhow::Error> for NutsError {
     fn vx_into(self) -> (r: anyhow::Error) { unimplemented!() }
 }
 
-pub mod dynamics { pub use super::LeapfrogResult; }
+pub mod dynamics { pub use super::{LeapfrogResult, DivergenceStatsOptions}; }
 pub mod nuts { pub use super::SampleInfo; }
